@@ -58,6 +58,10 @@ def labels_of(text):
     return sorted(set(re.findall(r"(?m)^\s*([A-Za-z_][A-Za-z0-9_]*):", text)))
 
 
+REGLIKE = ["T0", "T1", "S1", "S0", "A7", "A0", "X5", "X10", "X31", "RA", "SP", "Zero", "FP", "Gp", "tP", "S11",
+           "T6", "A1", "x32", "t7", "a8", "s12"]
+
+
 def fresh_labels(rng, names):
     pool = ["alpha", "Beta_1", "_g", "L99", "zz_top", "node", "entry2", "q", "w_", "Kx", "mAiN", "lab"]
     m = {}
@@ -65,6 +69,10 @@ def fresh_labels(rng, names):
     for n in names:
         while True:
             c = rng.choice(pool) + str(rng.randrange(1000))
+            if rng.random() < 0.3:
+                # names that differ from a register / mnemonic spelling only by case are ordinary
+                # labels (register and mnemonic names are lower case)
+                c = rng.choice(REGLIKE)
             if c not in used and c not in NUM and c.lower() not in ALL_MNEMONICS:
                 used.add(c)
                 m[n] = c
